@@ -277,6 +277,25 @@ def container_method(ex, recv: VRef, name, args, kwargs, st):
         if name == "clear":
             st.list_store(r, st.list_arr(r), z3.IntVal(0))
             return [Res("val", None, st)]
+        if name == "remove":
+            # removes the FIRST occurrence; ValueError if absent
+            v = z_int(args[0])
+            arr = st.list_arr(r)
+            j = z3.Int("j!rm")
+            present = z3.Exists([j], z3.And(j >= 0, j < n, z3.Select(arr, j) == v))
+            out = []
+            for has, bs in ex.split(st, present):
+                if not has:
+                    bs.trace.append("ValueError")
+                    out.append(Res("raise", "ValueError", bs))
+                    continue
+                p = bs.fresh_int("rmpos")
+                bs.assume(z3.And(p >= 0, p < n, z3.Select(arr, p) == v,
+                                 z3.ForAll([j], z3.Implies(z3.And(j >= 0, j < p), z3.Select(arr, j) != v))))
+                new = z3.Lambda([j], z3.If(j < p, z3.Select(arr, j), z3.Select(arr, j + 1)))
+                bs.list_store(r, new, z3.simplify(n - 1))
+                out.append(Res("val", None, bs))
+            return out
     if k == "dict":
         vk = recv.kinds[2]
         vcls = recv.kinds[3] if len(recv.kinds) > 3 else None
@@ -315,6 +334,15 @@ def container_method(ex, recv: VRef, name, args, kwargs, st):
         if name == "add":
             st.dict_store(r, z3.Store(st.dict_dom(r), z_int(args[0]), z3.BoolVal(True)), st.dict_vals(r))
             return [Res("val", None, st)]
+        if name == "remove":
+            out = []
+            for has, bs in ex.split(st, st.dict_has(r, z_int(args[0]))):
+                if has:
+                    bs.dict_store(r, z3.Store(bs.dict_dom(r), z_int(args[0]), z3.BoolVal(False)), bs.dict_vals(r))
+                    out.append(Res("val", None, bs))
+                else:
+                    out.append(Res("raise", "KeyError", bs))
+            return out
         if name in ("discard",):
             st.dict_store(r, z3.Store(st.dict_dom(r), z_int(args[0]), z3.BoolVal(False)), st.dict_vals(r))
             return [Res("val", None, st)]
